@@ -25,6 +25,8 @@ class Skip(Exception):
 
 
 def parse_template(src, cat):
+    if cat == 'pattern':
+        return 'expr', ast.parse('match _:\n case ' + src + ':\n  pass').body[0].cases[0].pattern
     if cat == 'expr':
         return 'expr', ast.parse(src, mode='eval').body
     m = ast.parse(src)
@@ -146,6 +148,8 @@ class Matcher:
                     caps[tag] = ('slice', out, _container(pn, fname))
             elif v is None:
                 continue
+            elif isinstance(v, str):
+                caps[tag] = ('str', v)               # an identifier captured from an identifier field
             else:
                 raise Skip('static tag')
         return caps
@@ -263,6 +267,8 @@ class Ref:
 
         def ident(m):
             c = cap(m)
+            if c is not None and c[0] == 'str':
+                return c[1]
             if c is None or c[0] == 'slice' or not isinstance(c[1], ast.Name):
                 raise Skip('identifier slot without a Name capture')
             return c[1].id
@@ -293,8 +299,15 @@ class Ref:
                         raise Skip('several nodes for Expr.value')
                     return [ast.Expr(value=r[0])]
                 return put(c)
+            if isinstance(t, ast.MatchAs) and t.pattern is None and t.name and (m := SLOT.match(t.name)):
+                c = cap(m)                      # `case __FST_p` / `k=__FST_p`: the whole sub-pattern is the slot
+                if c is None or c[0] != 'node' or not isinstance(c[1], ast.pattern):
+                    raise Skip('pattern slot without a pattern capture')
+                return put(c)
             if isinstance(t, ast.Name) and (m := SLOT.match(t.id)):
                 c = cap(m)
+                if c is not None and c[0] == 'str':
+                    raise Skip('identifier capture in a node slot')
                 if c is None:
                     if in_list:
                         return []
